@@ -688,4 +688,80 @@ example : (∀ g ∈ [ofS "b"], containers.lookup g = none) ∧ containers.looku
 
 end parser
 
+/-! ## 11. the arguments at full strength -/
+
+/-- `strip` is tested by `if strip:` — only its truth value matters: `0`, `None`, `""` behave as `False`; any other
+    integer and any non-empty string as `True`. -/
+theorem strip_truthiness (mn : List StrClass) (a b : PyArg) (types : TypesArg) (n : Node) (h : a.truthy = b.truthy) :
+    allStringsArg mn a types n = allStringsArg mn b types n := by
+  simp only [allStringsArg, h]
+
+theorem strip_falsy_truthy (mn : List StrClass) (types : TypesArg) (n : Node) (k : Int) (hk : k ≠ 0) (s : PStr)
+    (hs : s ≠ []) :
+    allStringsArg mn (.int 0) types n = allStringsImpl mn false types n ∧
+    allStringsArg mn .none types n = allStringsImpl mn false types n ∧
+    allStringsArg mn (.str []) types n = allStringsImpl mn false types n ∧
+    allStringsArg mn (.int k) types n = allStringsImpl mn true types n ∧
+    allStringsArg mn (.str s) types n = allStringsImpl mn true types n := by
+  refine ⟨rfl, rfl, rfl, ?_, ?_⟩
+  · have : (k != 0) = true := by simpa using hk
+    simp only [allStringsArg, PyArg.truthy, this]
+  · cases s with
+    | nil => exact absurd rfl hs
+    | cons x xs => rfl
+
+example : PyArg.truthy (.int 2) = PyArg.truthy (.str (ofS "yes")) := by decide
+
+/-- `strip()` is *the* trim: however a string is cut into whitespace, a middle without leading or trailing whitespace,
+    and whitespace, the middle is `strip` of it (with `strip_spec`: existence and uniqueness). -/
+theorem strip_unique_trim (s a m b : PStr) (hs : s = a ++ m ++ b) (ha : ∀ c ∈ a, isSpace c = true)
+    (hb : ∀ c ∈ b, isSpace c = true) (hh : ∀ c, m.head? = some c → isSpace c = false)
+    (hl : ∀ c, m.getLast? = some c → isSpace c = false) : strip s = m :=
+  strip_unique s a m b hs ha hb hh hl
+
+example : strip ([32, 0x3000] ++ ofS "a b" ++ [10]) = ofS "a b" :=
+  strip_unique_trim _ [32, 0x3000] (ofS "a b") [10] rfl (by decide) (by decide) (by decide) (by decide)
+
+/-- A string asked for its own text: by default it counts only if it is a NavigableString or CData, *whatever its
+    parent* — a Script string inside `<script>` has empty `.text` (recorded behaviour of `NavigableString._all_strings`). -/
+theorem str_receiver_default (strp : Bool) (c : StrClass) (v : PStr) :
+    allStringsImpl main strp .dflt (.str c v) =
+      if isMain c then ([if strp then strip v else v].filter (fun s => !s.isEmpty)) else [] := by
+  rw [allStrings_str_eq_spec]
+  simp only [resolveStr, textOf, Types.keeps, main_types_table]
+  by_cases h : isMain c = true
+  · simp [h]
+  · simp [h]
+
+/-- … and an explicit `types` selects a string receiver by exact class as well. -/
+theorem types_arg_str (mn : List StrClass) (strp : Bool) (cs : List StrClass) (c : StrClass) (v : PStr) :
+    allStringsImpl mn strp (.many cs) (.str c v) =
+      if cs.contains c then ([if strp then strip v else v].filter (fun s => !s.isEmpty)) else [] := by
+  rw [allStrings_str_eq_spec]
+  simp only [resolveStr, textOf, Types.keeps]
+  by_cases h : c ∈ cs
+  · simp [h]
+  · simp [h]
+
+example : allStringsImpl main false .dflt (.str .script (ofS "s")) = [] := by decide
+example : allStringsImpl main false (.many [.script]) (.str .script (ofS "s")) = [ofS "s"] := by decide
+
+/-- A one-shot iterator (generator) as `types` — not the documented tuple: `in` consumes it, so the loop yields only a
+    *sublist* of what the same classes passed as a tuple select, depending on the order of the strings. -/
+theorem iter_types_sublist (mn : List StrClass) (strp : Bool) (cs : List StrClass) (nm : PStr) (i : Interesting)
+    (kids : List Node) :
+    (allStringsIterImpl strp cs (.tag nm i kids)).Sublist (allStringsImpl mn strp (.many cs) (.tag nm i kids)) := by
+  simp only [allStringsIterImpl, allStringsImpl, resolveTag]
+  exact iterWalk_sublist strp cs (walk kids) cs (fun _ h => h)
+
+/-- the sublist can be proper: `types=iter([Comment, NavigableString])` on "a", <!--c--> finds "a" only after skipping
+    `Comment`, which is then gone -/
+example : allStringsIterImpl false [.comment, .navigableString]
+      (.tag [] .none [.str .navigableString (ofS "a"), .str .comment (ofS "c")]) = [ofS "a"] ∧
+    allStringsImpl main false (.many [.comment, .navigableString])
+      (.tag [] .none [.str .navigableString (ofS "a"), .str .comment (ofS "c")]) = [ofS "a", ofS "c"] := by
+  constructor
+  · simp [allStringsIterImpl, walk_eq_pre, preL, preN, iterWalk, iterIn, tagKeep, Types.keeps]
+  · rw [types_arg_exact]; decide
+
 end BS.Props.C13
